@@ -34,9 +34,14 @@ TplQuick == {
   [t |-> "import", module |-> "gvmod_missing", lines |-> 1],
   [t |-> "include", file |-> "a", lines |-> 1], [t |-> "include", file |-> "b", lines |-> 1],
   [t |-> "include", file |-> "nofile", lines |-> 1], [t |-> "include", file |-> "p", lines |-> 1], [t |-> "syntax", lines |-> 1] }
+\* the include-heavy family: overriding bindings around (repeated) includes
+TplDiamond == { B("", "f", "p", L("1")), B("", "f", "p", L("2")), B("a", "f", "p", L("1")),
+  [t |-> "include", file |-> "a", lines |-> 1], [t |-> "include", file |-> "b", lines |-> 1] }
+SkipFalse == { [mode |-> "false", names |-> {}] }
 Skips == { [mode |-> "false", names |-> {}], [mode |-> "true", names |-> {}], [mode |-> "list", names |-> {"u"}] }
 Files3 == {"root", "a", "b", "p"}
 Max3 == [n \in Files3 |-> CASE n = "root" -> 2 [] n = "a" -> 1 [] n = "b" -> 0 [] n = "p" -> 1]
+MaxDiamond == [n \in Files3 |-> CASE n = "root" -> 3 [] n = "a" -> 1 [] n = "b" -> 1 [] n = "p" -> 0]
 Max3T == [n \in Files3 |-> CASE n = "root" -> 3 [] n = "a" -> 2 [] n = "b" -> 1 [] n = "p" -> 1]
 Locs == <<"", "L1", "L2">>
 Rdrs == <<"r1", "pkg", "r2">>        \* open(), the Python-path resource reader, a custom reader
@@ -44,4 +49,5 @@ Rdrs == <<"r1", "pkg", "r2">>        \* open(), the Python-path resource reader,
 Present1 == { <<"", "r1", "root">>, <<"", "r1", "a">>, <<"", "r1", "b">>, <<"", "pkg", "p">> }
 Present2 == { <<"", "r1", "root">>, <<"L1", "r2", "a">>, <<"L2", "r1", "a">>, <<"L2", "r2", "b">>, <<"L1", "r1", "b">>, <<"", "pkg", "p">>, <<"L1", "r2", "p">> }
 Presents == { Present1, Present2 }
+Presents1 == { Present1 }
 =============================================================================
